@@ -119,3 +119,67 @@ Example C14_ex_dc_replace :
   exists s' a', dc_replace ex_H ex_ct no_late ex_state 1 [(lit "note", VProp (VStr (lit "m")))] = (s', OkNode a')
     /\ get_any ex_state (lit ")_1") = Some 1 /\ get_any s' (lit ")_1") = Some 1.
 Proof. eexists _, _. split; [vm_compute; reflexivity|split; vm_compute; reflexivity]. Qed.
+
+(* non-vacuity witnesses *)
+(* the instance (Proofs/C14Witness.v): w10_ct = A (comparable v, non-comparable note), A2 a subclass of A, B (tuple child xs,
+   optional child one); w10_H = the identity digest; w10_s = the state after the four operations
+   v0 = A(1, "n"); v1 = A2(1, "n"); v2 = B(xs=(v0, v1), one=None); v3 = B(xs=(), one=v2)  run from init_st 5 *)
+From Oak Require Import Proofs.C14Witness.
+Theorem C14_ex_state : length (heap w10_s) = 4 /\ vars w10_s = [Some 0; Some 1; Some 2; Some 3; None]
+  /\ tree_of w10_s 3 = [3; 2; 0; 1] /\ map snd (reg w10_s) = [3; 2; 1; 0] /\ length w10_ops = 4
+  /\ fields_of w10_ct (lit "A2") = [w10_fd "v" RProp true; w10_fd "note" RProp false].
+Proof. exact w10_shape. Qed.
+(* C14_dup_fresh, C14_dup_ids_disjoint, C14_dup_total, C14_dup_grows, C14_dup_same_tree, C14_dup_eq, C14_dup_keeps_original *)
+Theorem C14_ex_dup_premises :
+  Inv0 w10_s /\ dup w10_H w10_ct no_late (length (heap w10_s)) w10_s 3 = DOk w14_s' 7
+  /\ 3 < length (heap w10_s) /\ tree_of w10_s 3 = [3; 2; 0; 1] /\ tree_of w14_s' 7 = [7; 6; 4; 5]
+  /\ In 4 (tree_of w14_s' 7)
+  /\ (exists c c', cell_at w10_s 0 = Some c /\ cell_at w14_s' 4 = Some c' /\ k_id c' = k_id c ++ lit "_1"
+                   /\ get_any w14_s' (k_id c') = Some 4 /\ get_any w10_s (k_id c') = None /\ get_any w14_s' (k_id c) = Some 0)
+  /\ wf_node w10_ct (reify_st w10_s 3) = true /\ size (reify_st w10_s 3) = 4
+  /\ addr (reify_st w14_s' 7) = 7 /\ length (heap w14_s') = 8.
+Proof. exact w14_dup. Qed.
+(* C14_cid_is_content_id, C14_dup_cid *)
+Theorem C14_ex_cid :
+  Inv0 w10_s /\ hwf (heap w10_s) /\ coh w10_H w10_ct (heap w10_s)
+  /\ dup w10_H w10_ct no_late (length (heap w10_s)) w10_s 3 = DOk w14_s' 7
+  /\ exists c c', cell_at w10_s 3 = Some c /\ cell_at w14_s' 7 = Some c' /\ c <> c' /\ k_cid c <> []
+                  /\ k_cid c = content_id w10_H w10_ct current (reify_st w10_s 3).
+Proof. exact w14_cid. Qed.
+(* C14_replace_fields: a changed child field and origin on the root; changed properties on a leaf *)
+Theorem C14_ex_replace_fields :
+  (exists c s' c', cell_at w10_s 3 = Some c /\ dc_replace w10_H w10_ct no_late w10_s 3 w14_ch3 = (s', OkNode 4)
+     /\ cell_at s' 4 = Some c' /\ k_org c' = w14_og /\ k_org c = ONo
+     /\ assoc (lit "xs") (k_kids c') = Some (ShMany, [0; 1]) /\ assoc (lit "xs") (k_kids c) = Some (ShMany, [])
+     /\ assoc (lit "one") (k_kids c') = Some (ShOne, [2]))
+  /\ (exists c s' c', cell_at w10_s 0 = Some c /\ dc_replace w10_H w10_ct no_late w10_s 0 w14_ch0v = (s', OkNode 4)
+     /\ cell_at s' 4 = Some c' /\ k_props c' = [(lit "v", VInt 5); (lit "note", VStr (lit "m"))]
+     /\ k_props c = [(lit "v", VInt 1); (lit "note", VStr (lit "n"))]).
+Proof. exact w14_fields. Qed.
+(* C14_replace_id_as_fresh, C14_replace_unregisters: a non-empty change list naming child addresses *)
+Theorem C14_ex_replace_unregisters :
+  Inv0 w10_s /\ changes_below (length (heap w10_s)) w14_ch3
+  /\ exists c s', cell_at w10_s 3 = Some c /\ replace w10_H w10_ct no_late true w10_s 3 w14_ch3 = (s', OkNode 4)
+       /\ get_any w10_s (k_id c) = Some 3 /\ get_any s' (k_id c) = None /\ det s' = [3].
+Proof. exact w14_unregisters. Qed.
+(* C14_replace_keeps_id: all four premises with a NON-empty change list (the non-comparable property changes) *)
+Theorem C14_ex_replace_keeps_id :
+  exists c s' c', cell_at w10_s 0 = Some c /\ get_any w10_s (k_id c) = Some 0
+    /\ replace w10_H w10_ct no_late true w10_s 0 w14_ch0 = (s', OkNode 4)
+    /\ k_id c = w10_H (id_data_of w10_ct current (k_cls c) (new_origin c w14_ch0) (new_props c w14_ch0)
+                                   (kd_of (heap w10_s) (new_kids c w14_ch0)))
+    /\ new_props c w14_ch0 <> k_props c
+    /\ cell_at s' 4 = Some c' /\ k_id c' = k_id c /\ get_any s' (k_id c) = Some 4.
+Proof. exact w14_keeps_id. Qed.
+(* ... and that premise is a real restriction: it fails when the comparable property changes as well *)
+Theorem C14_ex_replace_other_id :
+  exists c, cell_at w10_s 0 = Some c
+    /\ k_id c <> w10_H (id_data_of w10_ct current (k_cls c) (new_origin c w14_ch0v) (new_props c w14_ch0v)
+                                    (kd_of (heap w10_s) (new_kids c w14_ch0v))).
+Proof. exact w14_keeps_id_other. Qed.
+(* C14_dc_replace_keeps_orig_registered *)
+Theorem C14_ex_dc_replace_keeps :
+  exists c s' c', cell_at w10_s 0 = Some c /\ get_any w10_s (k_id c) = Some 0
+    /\ dc_replace w10_H w10_ct no_late w10_s 0 w14_ch0 = (s', OkNode 4)
+    /\ cell_at s' 4 = Some c' /\ k_id c' = k_id c ++ lit "_1" /\ get_any s' (k_id c) = Some 0.
+Proof. exact w14_dc_keeps. Qed.
